@@ -84,12 +84,12 @@ func (c *Conn) Watch() {
 func (c *Conn) Submit(ctx context.Context, packet Responsable) (resp interface{}, err error) {
 	sequence := c.NextSequence()
 	WriteSequence(packet, sequence)
-	if err = c.Send(packet); err != nil {
-		return
-	}
 	returns := make(chan interface{}, 1)
 	c.register(sequence, func(resp interface{}) { returns <- resp })
 	defer c.unregister(sequence)
+	if err = c.Send(packet); err != nil {
+		return
+	}
 	select {
 	case <-c.ctx.Done():
 		err = ErrConnectionClosed
